@@ -83,9 +83,15 @@ package decoder
 //@   loop 2 invariant 0 <= startParamID && startParamID <= idx
 //@   loop 2 invariant 0 <= startParamValue && startParamValue <= idx
 
+// readUntilSpaceOrNilValue: a header field is the NILVALUE only if it is exactly
+// "-" followed by a space; otherwise it is the bytes up to the first space.
+
 //@ func (*syslogRFC5424Decoder).readUntilSpaceOrNilValue
 //@   pure
 //@   ensures result1 ==> (result0 == 0 && len(data) >= 2) || (0 < result0 && result0 < len(data))
+//@   ensures result1 && result0 == 0 ==> data[0] == '-' && data[1] == ' '
+//@   ensures result1 && result0 > 0 ==> data[result0] == ' ' && nochr(data[:result0], ' ')
+//@   ensures !result1 && len(data) >= 2 ==> data[0] == ' ' || nochr(data, ' ')
 
 //@ func (*CSVDecoder).Decode
 //@   modifies data
